@@ -103,7 +103,66 @@ def verdict(desc):
     return out
 
 
+def selftest_cfg():
+    return st.fixed_dictionaries(dict(b=S.fl(0.5, 20.0, 4.0), c=S.fl(0.2, 5.0, 1.0), a=S.fl(0.05, 10.0, 0.5),
+                                      y=S.fl(-0.45, 0.45, 0.0), z=S.fl(-3.0, 3.0, 0.0), alpha=S.fl(-15.0, 15.0, 0.0)))
+
+
+def selftest_verdict(d):
+    """the reference itself against closed forms that do not involve OpenAeroStruct: a single flat panel's vortex ring with
+    its wake legs is a horseshoe vortex; its induced velocity in the plane of the horseshoe has the textbook closed form
+        w = -G/(4 pi) [ (cos t1 + cos t2)/a  +  (1 + cos p1)/h1  +  (1 + cos p2)/h2 ]   (downwash behind the bound vortex)
+    and, out of plane, the three Biot-Savart segments evaluated by direct numerical quadrature."""
+    from oasv import ref_vlm
+
+    out = Outcome()
+    b, c, a = d["b"], d["c"], d["a"]
+    al = np.radians(d["alpha"])
+    u = np.array([np.cos(al), 0.0, np.sin(al)])
+    # flat panel in the plane spanned by u and y: bound vortex along y at the origin, trailing edge at c*u
+    V = np.zeros((2, 2, 3))
+    V[0, 0] = [0.0, -b / 2, 0.0]
+    V[0, 1] = [0.0, b / 2, 0.0]
+    V[1, 0] = V[0, 0] + c * u
+    V[1, 1] = V[0, 1] + c * u
+    yp = d["y"] * b
+    X = (a * u + np.array([0.0, yp, 0.0]))[None, :]
+    v = ref_vlm.ring(V, 0, 0, True, u, X)[0]
+    nrm = np.cross(u, np.array([0.0, 1.0, 0.0]))  # normal of the horseshoe plane
+    h1, h2 = b / 2 + yp, b / 2 - yp
+    cos1 = h1 / np.hypot(a, h1)
+    cos2 = h2 / np.hypot(a, h2)
+    # ring orientation A(j+1) -> B(j): circulation vector along -y: velocity behind the bound vortex is along +nrm*(-1)...
+    w_closed = (1.0 / (4 * np.pi)) * ((cos1 + cos2) / a + (1 + a / np.hypot(a, h1)) / h1 + (1 + a / np.hypot(a, h2)) / h2)
+    out.close("selftest/in_plane_magnitude", abs(v @ nrm), w_closed, rtol=1e-12)
+    out.le("selftest/in_plane_direction", float(np.linalg.norm(v - (v @ nrm) * nrm)), 1e-12 * w_closed)
+    # out-of-plane point: direct quadrature of Biot-Savart over the three filaments
+    Xo = X[0] + d["z"] * nrm
+    if abs(d["z"]) > 1e-3:
+        def quad(P0, dirv, L, n=20000):
+            # Gauss-Legendre on [0, L]; for the semi-infinite legs map s = t/(1-t)
+            t, wq = np.polynomial.legendre.leggauss(400)
+            if np.isinf(L):
+                tt = 0.5 * (t + 1.0)
+                sgrid = tt / (1.0 - tt)
+                jac = 0.5 / (1.0 - tt) ** 2
+            else:
+                sgrid = 0.5 * L * (t + 1.0)
+                jac = 0.5 * L * np.ones_like(t)
+            pts = P0[None, :] + sgrid[:, None] * dirv[None, :]
+            r = Xo[None, :] - pts
+            integrand = np.cross(np.tile(dirv, (len(sgrid), 1)), r) / np.linalg.norm(r, axis=1)[:, None] ** 3
+            return (integrand * (wq * jac)[:, None]).sum(axis=0) / (4 * np.pi)
+        ey = np.array([0.0, 1.0, 0.0])
+        vq = quad(V[0, 1], -ey, b) + quad(V[0, 0], u, np.inf) - quad(V[0, 1], u, np.inf)
+        vo = ref_vlm.ring(V, 0, 0, True, u, Xo[None, :])[0]
+        out.close("selftest/out_of_plane_quadrature", vo, vq, rtol=2e-6, scale=float(np.linalg.norm(vq)))
+    out.label("selftest")
+    return out
+
+
 SUBS = [
-    Sub("vlm_vs_reference", config(), verdict, quick=320, thorough=6000),
-    Sub("vlm_vs_reference_fine", config_big(), verdict, quick=48, thorough=1500),
+    Sub("vlm_vs_reference", config(), verdict, quick=960, thorough=12000),
+    Sub("vlm_vs_reference_fine", config_big(), verdict, quick=128, thorough=3000),
+    Sub("reference_selftest", selftest_cfg(), selftest_verdict, quick=160, thorough=2000),
 ]
